@@ -7,7 +7,7 @@
    "exactly the documented repairs" hold for every data set that yields (feat, ali, ref) triples
    (suppress_alis = False, tokens_only = False: [plain_yield]) and either adds no sos/eos or is not
    asked to fix ([clean_writes]).  What happens outside those hypotheses is stated too, as
-   [_refuted] witnesses (F9, F11, F13, F14 of notes/C12_report.md; F12 is repaired in /repo) and a characterisation (F10). *)
+   [_refuted] witnesses (F9, F11 of notes/C12_report.md; F12, F13, F14 are repaired in /repo) and a characterisation (F10). *)
 From Coq Require Import List ZArith Bool.
 From PV Require Import C12.Model C12.Spec C12.Proofs C12.Proofs2 C12.Proofs3 C12.Proofs4.
 Import ListNotations.
@@ -128,19 +128,6 @@ Theorem c12_tokens_only_refuted :
 Proof. exact tokens_only_refuted. Qed.
 Print Assumptions c12_tokens_only_refuted.
 
-(* F13, F14 - two reported statistics that are not the recount *)
-Theorem c12_info_total_tokens_refuted :
-  exists d p, WellFormed d /\ cli_info true None d = (d, inr p) /\
-    p_total_tokens p = -1 /\ p_total_tokens (recount d) = 0.
-Proof. exact info_total_tokens_refuted. Qed.
-Print Assumptions c12_info_total_tokens_refuted.
-
-Theorem c12_info_rcount_refuted :
-  exists d p, WellFormed d /\ cli_info true None d = (d, inr p) /\
-    map fst (p_ref_tab p) = [-1; -1] /\ map fst (p_ref_tab (recount d)) = [-1; 2].
-Proof. exact info_rcount_refuted. Qed.
-Print Assumptions c12_info_rcount_refuted.
-
 (* ---- the second entry point: get-torch-spect-data-dir-info [--strict | --fix N] ---- *)
 
 (* with --strict or --fix N (any N): the same files afterwards and the same raise/return as
@@ -176,23 +163,21 @@ Proof. exact cli_unvalidated_never_writes. Qed.
 Print Assumptions c12_cli_unvalidated_never_writes.
 
 (* ---- "the directory statistics report is the recount of the stored tensors" ----
-   FULL statement: for every valid directory d, cli_info strict fx d = (d, inr (recount d)).
-   It is false of the code (c12_info_total_tokens_refuted, c12_info_rcount_refuted); proved with the two
-   side conditions that exclude exactly those deviations: no reference segment is empty, and if ref/
-   exists at least one transcript is non-empty. *)
-Theorem c12_info_is_recount_partial : forall strict fx d,
-  WellFormed d -> tokens_nonneg d -> classes_nonneg d -> no_empty_segment d -> tokens_counted d ->
+   Full statement (the two deviations F13/F14 were repaired in /repo 9974b4d, 518042e and the model follows the
+   repaired code): on every valid directory, whatever the flags, nothing changes and the report is the recount. *)
+Theorem c12_info_is_recount : forall strict fx d,
+  WellFormed d -> tokens_nonneg d -> classes_nonneg d ->
   cli_info strict fx d = (d, inr (recount d)).
 Proof. exact cli_report_on_valid. Qed.
-Print Assumptions c12_info_is_recount_partial.
+Print Assumptions c12_info_is_recount.
 
 (* and after a repair: the report is the recount of the repaired files *)
-Theorem c12_info_after_fix_is_recount_partial : forall strict fx d,
+Theorem c12_info_after_fix_is_recount : forall strict fx d,
   cli_validates strict fx = true -> tokens_nonneg d -> classes_nonneg d ->
-  WellFormed (repair fx d) -> no_empty_segment (repair fx d) -> tokens_counted (repair fx d) ->
+  WellFormed (repair fx d) ->
   cli_info strict fx d = (repair fx d, inr (recount (repair fx d))).
 Proof. exact cli_report_after_fix. Qed.
-Print Assumptions c12_info_after_fix_is_recount_partial.
+Print Assumptions c12_info_after_fix_is_recount.
 
 (* ---- "reading a reference puts the configured start and end symbols around every transcript,
         an empty one included" ---- *)
@@ -267,10 +252,13 @@ Qed.
 (* non-vacuity of the statistics theorem: a two-utterance directory whose report has every kind of entry *)
 Example c12_report_nonvacuous :
   let f := mkFeat false DF32 [4%nat; 2%nat] in
-  let d := [mkUtt f (Some (mkAli false DI64 (A1 [0; 0; 2; 0]))) (Some (mkRef false DI64 (R2 [(1, 0, 2); (0, -1, -1); (1, 3, 4)])));
+  let d := [mkUtt f (Some (mkAli false DI64 (A1 [0; 0; 2; 0]))) (Some (mkRef false DI64 (R2 [(1, 0, 2); (0, -1, -1); (1, 3, 3)])));
             mkUtt f (Some (mkAli false DI64 (A1 [2; 2; 2; 2]))) (Some (mkRef false DI64 (R2 [])))] in
+  let e := [mkUtt f None (Some (mkRef false DI64 (R1 [])))] in
   wellformedb d = true /\ tokens_nonnegb d = true /\ classes_nonnegb d = true /\
   cli_info false None d
-  = (d, inr (mkReport 2 8 (Some 2) 2 1 3 [(3, 2); (0, 0); (5, 2)] [(-1, 1); (3, 2)])) /\
-  recount d = mkReport 2 8 (Some 2) 2 1 3 [(3, 2); (0, 0); (5, 2)] [(-1, 1); (3, 2)].
+  = (d, inr (mkReport 2 8 (Some 2) 2 1 3 [(3, 2); (0, 0); (5, 2)] [(-1, 1); (2, 2)])) /\
+  recount d = mkReport 2 8 (Some 2) 2 1 3 [(3, 2); (0, 0); (5, 2)] [(-1, 1); (2, 2)] /\
+  (* ref/ with only an empty transcript: 0 tokens, not "unavailable" *)
+  cli_info true None e = (e, inr (mkReport 1 4 (Some 2) (-1) (-1) 0 [] [])).
 Proof. cbv zeta. repeat split; reflexivity. Qed.
